@@ -293,7 +293,7 @@ fn length_sweep_case(keylen: usize, rt_workers: usize, lens: &[u32]) -> Case {
 pub fn run(ctx: &RunCtx) -> PropResult {
     let mut report = Report::default();
     let p = profile();
-    run_profile(ctx, &p, ctx.tier.pick(1500, 30_000), &mut report);
+    run_profile(ctx, &p, ctx.tier.pick(3000, 30_000), &mut report);
     // systematic value-length sweep
     let mut cases = vec![];
     let step = ctx.tier.pick(7usize, 1usize);
@@ -317,7 +317,7 @@ pub fn run(ctx: &RunCtx) -> PropResult {
     let runc = |c: &CorruptCase, d: &Path| run_corrupt(c, d, &findings);
     run_replays::<CorruptCase, _>(ctx, "corrupt", &ctx.verif_dir.join("replays").join("C05"), runc, &mut report);
     let runc = |c: &CorruptCase, d: &Path| run_corrupt(c, d, &findings);
-    run_generated(ctx, "corrupt", ctx.tier.pick(2500, 60_000), corrupt_strategy, runc, &sample_corrupt, &mut report);
+    run_generated(ctx, "corrupt", ctx.tier.pick(5000, 60_000), corrupt_strategy, runc, &sample_corrupt, &mut report);
     PropResult {
         report,
         level: "fault_enumeration",
